@@ -102,6 +102,11 @@ func Observe(p *ir.Program, input map[string]any, evs []world.Event, upto int64,
 				if !enabled && !started {
 					sf.Out["disabled.output"] = map[string]any{"message": ref.Wild{}}
 					sf.At["disabled.output"] = deploySeq
+					if sd > 0 {
+						// derived, not observed: in a run that is being torn down the step may have been closed
+						// before it got to say that it is disabled
+						sf.Maybe["disabled.output"] = true
+					}
 				}
 			}
 		}
